@@ -271,7 +271,7 @@ func (g *hdGen) mediaOp(c int) hdOp {
 		if g.gated {
 			g.blocked[c] = true
 		}
-		return hdOp{K: "media", C: c, Mk: "offer", Stream: pick(r, []string{"video", "video", "screen", "audio"}), Media: 1 + r.intn(3),
+		return hdOp{K: "media", C: c, Mk: "offer", Stream: pick(r, []string{"video", "video", "screen", "audio"}), Media: pick(r, []int{1, 2, 3, 1, 2, 3, 8, 16, 9, 17, 10, 24, 4, 12}),
 			To: &hdRecipient{T: "session", Id: &hdIdRef{T: "pub", C: c}}}
 	case 4, 5, 6:
 		return hdOp{K: "media", C: c, Mk: "requestoffer", Stream: pick(r, []string{"video", "screen"}),
